@@ -18,15 +18,32 @@ import sys
 import time
 
 VERIF = os.path.dirname(os.path.dirname(os.path.abspath(__file__)))
-REPO = os.environ.get("VERIF_REPO", "/repo")
-COQ = os.path.join(VERIF, "coq")
-BUILD = os.path.join(VERIF, "build")
+REPO = os.path.realpath(os.environ.get("VERIF_REPO", "/repo"))
+ALT = REPO != "/repo"
+# Running against a scratch worktree (VERIF_REPO=/tmp/wt ./check Cnn) must not disturb the
+# shared build tree: everything generated goes under build/alt_<hash>/ and the Coq tree is
+# mirrored there (with its .vo files, so only what the regenerated tables change is rebuilt).
+ALT_TAG = hashlib.sha1(REPO.encode()).hexdigest()[:10] if ALT else ""
+BUILD = os.path.join(VERIF, "build", "alt_" + ALT_TAG) if ALT else os.path.join(VERIF, "build")
+COQ = os.path.join(BUILD, "coq") if ALT else os.path.join(VERIF, "coq")
+COQ_SRC = os.path.join(VERIF, "coq")
 CASES = os.path.join(BUILD, "cases")
-EVID = os.path.join(VERIF, "evidence")
+EVID = os.path.join(BUILD, "evidence") if ALT else os.path.join(VERIF, "evidence")
 CORPUS = os.path.join(VERIF, "corpus")
-REPLAYS = os.path.join(VERIF, "replays")
+REPLAYS = os.path.join(BUILD, "replays") if ALT else os.path.join(VERIF, "replays")
 HARNESS_SRC = os.path.join(VERIF, "harness")
 EXTRACT_SRC = os.path.join(VERIF, "tools", "extract")
+
+
+def mirror_coq():
+    """ALT mode only: copy /verif/coq (sources and compiled files, timestamps kept) into the alt build dir"""
+    if not ALT:
+        return
+    os.makedirs(COQ, exist_ok=True)
+    with Lock("coqsrc"):
+        subprocess.run(["rsync", "-a", "--exclude", "gen/", "--exclude", "Makefile.coq*", "--exclude", ".filelist",
+                        "--exclude", ".Makefile.coq.d", COQ_SRC + "/", COQ + "/"], check=True)
+
 
 GOENV = dict(os.environ, GOFLAGS="-mod=mod", GOPROXY="off", GOSUMDB="off", GOTOOLCHAIN="local",
              CGO_ENABLED=os.environ.get("CGO_ENABLED", "1"))
@@ -43,7 +60,8 @@ def log(*a):
 class Lock:
     def __init__(self, name):
         os.makedirs(BUILD, exist_ok=True)
-        self.path = os.path.join(BUILD, name + ".lock")
+        base = os.path.join(VERIF, "build") if name in ("coqsrc", "gosum") else BUILD
+        self.path = os.path.join(base, name + ".lock")
 
     def __enter__(self):
         self.f = open(self.path, "w")
@@ -85,6 +103,7 @@ def run_extractor():
     """Regenerate coq/gen/*.v from the current source. Returns (ok, message).
     Files are rewritten only when their content changes so make stays incremental."""
     exe = build_extractor()
+    mirror_coq()
     with Lock("coq"):
         gen = os.path.join(COQ, "gen")
         os.makedirs(gen, exist_ok=True)
@@ -237,15 +256,23 @@ def gstr(s):
 # ----------------------------------------------------------------------------- Go harness
 
 def build_harness(pkg="ranges"):
-    """build driver package harness/<pkg> against /repo's working tree with hooks on"""
+    """build driver package harness/<pkg> against REPO's working tree with hooks on"""
     with Lock("harness_" + pkg):
         out = os.path.join(BUILD, "h_" + pkg)
+        modargs = []
         with Lock("gosum"):
-            dst = os.path.join(HARNESS_SRC, "go.sum")
             src = open(os.path.join(REPO, "go.sum")).read()
-            if not os.path.exists(dst) or open(dst).read() != src:
-                open(dst, "w").write(src)
-        rc, o, e = sh(["go", "build", "-tags", "verif", "-ldflags=-checklinkname=0", "-o", out, "./" + pkg],
+            if ALT:
+                mod = open(os.path.join(HARNESS_SRC, "go.mod")).read().replace("=> /repo\n", "=> %s\n" % REPO)
+                mf = os.path.join(BUILD, "go.alt.mod")
+                open(mf, "w").write(mod)
+                open(os.path.join(BUILD, "go.alt.sum"), "w").write(src)
+                modargs = ["-modfile=" + mf]
+            else:
+                dst = os.path.join(HARNESS_SRC, "go.sum")
+                if not os.path.exists(dst) or open(dst).read() != src:
+                    open(dst, "w").write(src)
+        rc, o, e = sh(["go", "build"] + modargs + ["-tags", "verif", "-ldflags=-checklinkname=0", "-o", out, "./" + pkg],
                       cwd=HARNESS_SRC, env=GOENV, timeout=1500)
         if rc != 0:
             return None, (o + e)[-4000:]
@@ -344,6 +371,8 @@ class Ctx:
     def broken(self, what, msg):
         if self.broken_list is None:
             self.broken_list = []
+        if any(w == what for w, _ in self.broken_list):
+            return
         self.broken_list.append((what, msg))
         log("BROKEN obligation/tie:", what, "::", msg[:600])
 
